@@ -24,9 +24,11 @@ type Variant struct {
 	// LevPool2: a second oracle pool (uelys/uusdc) exists and governance enables leveragelp (and with it
 	// a perpetual market and an accounted pool) on it as well
 	LevPool2 bool
-	Host     float64
-	Walk     float64
-	Jump     int
+	// LevPool2Asset: every other such world has its second market on the SAME trading asset as pool 1
+	LevPool2Asset string
+	Host          float64
+	Walk          float64
+	Jump          int
 	// SparseSweep: governance makes the leveragelp begin-block sweep sparse (few positions per
 	// block, long epoch) so that interest really accrues lazily between touches of a debt; with the
 	// default (1000 positions every block) every debt is refreshed in every begin-block.
@@ -47,6 +49,9 @@ func NewVariant(c *run.Ctx) *Variant {
 	v.Jump = []int{60, 30, 0, 100}[r.Intn(4)]
 	v.SparseSweep = c.Job.Index%3 != 0
 	v.LevPool2 = c.Job.Index%5 == 4
+	if c.Job.Index%10 == 9 {
+		v.LevPool2Asset = "uatom"
+	}
 	return v
 }
 
@@ -57,7 +62,7 @@ func (v *Variant) World(c *run.Ctx, probes bool, nUsers int) *chain.World {
 }
 
 func (v *Variant) Prologue(w *chain.World) {
-	w.Prologue(chain.PrologueCfg{Scale: v.Scale, Pool3: v.Pool3, W2A: v.W2A, W2B: v.W2B, Fee1: v.Fee1, Fee2: v.Fee2, LevPool2: v.LevPool2})
+	w.Prologue(chain.PrologueCfg{Scale: v.Scale, Pool3: v.Pool3, W2A: v.W2A, W2B: v.W2B, Fee1: v.Fee1, Fee2: v.Fee2, LevPool2: v.LevPool2, LevPool2Asset: v.LevPool2Asset})
 	v.Sweep(w)
 }
 
